@@ -496,6 +496,81 @@ fn main() {
             println!("second_put_result={}", if r2.is_ok() { "Ok" } else { "Err" });
             fs.disarm();
         }
+        // sched_batch_visibility : a reader runs to completion while a two-key batch is half way into the memtable
+        "sched_batch_visibility" => {
+            use raindb::{ReadOptions, WriteOptions};
+            let mut o = raindb::DbOptions::with_memory_env();
+            o.db_path = "db".to_string();
+            o.create_if_missing = true;
+            let db = std::sync::Arc::new(raindb::DB::open(o).expect("open"));
+            db.put(WriteOptions::default(), b"k1".to_vec(), b"a".to_vec()).unwrap();
+            db.put(WriteOptions::default(), b"k2".to_vec(), b"a".to_vec()).unwrap();
+            let seen: std::sync::Arc<std::sync::Mutex<Vec<String>>> = Default::default();
+            let (db2, seen2) = (std::sync::Arc::clone(&db), std::sync::Arc::clone(&seen));
+            v::set_sched_hook(Some(std::sync::Arc::new(move |name: &str| {
+                if name == "memtable.after_insert" && seen2.lock().unwrap().is_empty() {
+                    // one consistent view: a snapshot, then both keys at that snapshot
+                    let snap = db2.get_snapshot();
+                    let r = |k: &[u8]| {
+                        db2.get(ReadOptions { fill_cache: true, snapshot: Some(snap.clone()) }, k)
+                            .map(|x| String::from_utf8_lossy(&x).to_string())
+                            .unwrap_or_else(|_| "none".to_string())
+                    };
+                    let (a, b) = (r(b"k1"), r(b"k2"));
+                    seen2.lock().unwrap().push(format!("{},{}", a, b));
+                    db2.release_snapshot(snap);
+                }
+            })));
+            let mut b = raindb::Batch::new();
+            b.add_put(b"k1".to_vec(), b"b".to_vec());
+            b.add_put(b"k2".to_vec(), b"b".to_vec());
+            db.apply(WriteOptions::default(), b).unwrap();
+            v::set_sched_hook(None);
+            let s = seen.lock().unwrap().first().cloned().unwrap_or_default();
+            println!("observed={}", s);
+            let p: Vec<&str> = s.split(',').collect();
+            println!("partial={}", p.len() == 2 && p[0] != p[1]);
+        }
+        // sched_get_race : while a get is in its unlocked section, the memtable is rotated and flushed
+        "sched_get_race" => {
+            use raindb::{ReadOptions, WriteOptions};
+            let mut o = raindb::DbOptions::with_memory_env();
+            o.db_path = "db".to_string();
+            o.create_if_missing = true;
+            o.max_memtable_size = 2048;
+            let db = std::sync::Arc::new(raindb::DB::open(o).expect("open"));
+            db.put(WriteOptions::default(), b"target".to_vec(), b"v".to_vec()).unwrap();
+            let fired = std::sync::Arc::new(std::sync::atomic::AtomicBool::new(false));
+            let (db2, fired2) = (std::sync::Arc::clone(&db), std::sync::Arc::clone(&fired));
+            v::set_sched_hook(Some(std::sync::Arc::new(move |name: &str| {
+                if name == "get.unlocked" && !fired2.swap(true, std::sync::atomic::Ordering::SeqCst) {
+                    for i in 0..40u32 {
+                        let _ = db2.put(WriteOptions::default(), format!("filler{:04}", i).into_bytes(), vec![b'x'; 100]);
+                    }
+                    let _ = db2.flush_for_verif();
+                }
+            })));
+            let r = db.get(ReadOptions::default(), b"target");
+            v::set_sched_hook(None);
+            println!("race_get={}", match &r { Ok(x) => String::from_utf8_lossy(x).to_string(), Err(_) => "notfound".to_string() });
+            let r2 = db.get(ReadOptions::default(), b"target");
+            println!("later_get={}", match &r2 { Ok(x) => String::from_utf8_lossy(x).to_string(), Err(_) => "notfound".to_string() });
+        }
+        // descriptor_watchdog Stats|SSTables|NumFilesAtLevel : does get_descriptor return? (the driver applies the watchdog)
+        "descriptor_watchdog" => {
+            let mut o = raindb::DbOptions::with_memory_env();
+            o.db_path = "db".to_string();
+            o.create_if_missing = true;
+            let db = raindb::DB::open(o).expect("open");
+            let d = match a[1] {
+                "Stats" => raindb::db::DatabaseDescriptor::Stats,
+                "SSTables" => raindb::db::DatabaseDescriptor::SSTables,
+                _ => raindb::db::DatabaseDescriptor::NumFilesAtLevel(0),
+            };
+            let r = db.get_descriptor(d);
+            println!("returned={}", r.is_ok());
+            std::process::exit(0);
+        }
         other => {
             eprintln!("unknown command {}", other);
             std::process::exit(2);
